@@ -1,6 +1,6 @@
 """C12 - specifications are rejected up front or run to completion.
 
-(a) rejection: ALL subsets of size <= 2 (thorough 3) of a 20-letter alphabet of documented
+(a) rejection: ALL subsets of size <= 2 (thorough 3) of a 22-letter alphabet of documented
     rule violations applied to three base models; each must be rejected with
     ModelInitilizationError / GridInitializationError / ValueError no later than
     get_lcm_function, for all three targets.
@@ -40,7 +40,7 @@ BASES = {"B0h": {"h": "hd"}, "B1h": {"h": "hd", "cc": "none", "wgrid": "disc"}, 
 VIOL = [
     "T0", "Tneg", "no_utility", "no_next", "no_next_suffix_twin", "overlap", "nongrid_state", "nongrid_choice", "noncallable",
     "stoch_cont_state", "stoch_dep_cont", "stoch_dep_param", "stoch_dep_aux", "filter_param",
-    "grid_start_eq_stop", "grid_start_gt_stop", "grid_zero_points", "grid_log_nonpositive", "grid_codes_gap", "grid_not_dataclass",
+    "grid_start_eq_stop", "grid_start_gt_stop", "grid_zero_points", "grid_log_nonpositive", "grid_codes_gap", "grid_not_dataclass", "grid_nan_bound", "grid_inf_bound",
 ]
 ODD = [
     "plain", "no_choices", "no_states", "single_label_state", "single_label_choice", "single_point_cont_state", "single_point_cont_choice",
@@ -139,6 +139,7 @@ def apply_violations(bname, viol):
                 "grid_start_eq_stop": "Lin(1, 1, 5)", "grid_start_gt_stop": "Lin(2, 1, 5)", "grid_zero_points": "Lin(1, 5, 0)",
                 "grid_log_nonpositive": "Log(0, 5, 5)", "grid_codes_gap": "DiscreteGrid(make_dataclass('G', [('a', int, 0), ('b', int, 2)]))",
                 "grid_not_dataclass": "DiscreteGrid(int)",
+                "grid_nan_bound": "Lin(float('nan'), 5, 3)", "grid_inf_bound": "Log(1, float('inf'), 3)",
             }[v]
             # an extra, otherwise harmless choice variable carries the invalid grid
             choices = choices + [(f"x_{v}", bad)]
